@@ -74,6 +74,13 @@ func c11Read(b []byte, format string, threads int, validate bool) (symptom strin
 					done <- "validated-reader-delivers-malformed-value: " + errClass(verr)
 					return
 				}
+				// the same question asked of the harness's own walker (Validate is part of
+				// the code under test)
+				if cerr := gen.Consistent(v.Type(), v.Bytes()); cerr != nil {
+					r.Close()
+					done <- "validated-reader-delivers-value-inconsistent-with-its-type: " + c11Class(errClass(cerr))
+					return
+				}
 			}
 			n++
 			if n > 100000 {
@@ -108,7 +115,10 @@ func c11Seeds() map[string][][]byte {
 		if strings.HasPrefix(v.Name, "builder:missing") || strings.HasPrefix(v.Name, "builder:quiet") {
 			continue
 		}
-		if !rep.Thorough() && i%4 != 0 {
+		// (top-level error and enum values are always seeds: their bodies are checked by
+		// validation through other paths than records, arrays, sets, maps and unions)
+		k := v.Val.Type().Kind()
+		if !rep.Thorough() && i%4 != 0 && k != zed.ErrorKind && k != zed.EnumKind {
 			continue
 		}
 		seqs = append(seqs, []zed.Value{v.Val})
@@ -451,7 +461,7 @@ func TestC11(t *testing.T) {
 	}
 	run.Sample(map[string]any{"jobs": len(jobs), "example": jobs[len(jobs)/2].name, "readers": c11Formats})
 	run.Set("exhaustive", true)
-	run.Set("rule", "(i) every byte string of length <= 2 and every string of length 3 (and a third of those of length 4; all in thorough) over the boundary alphabet {00,01,0f,10,1f,20,40,7f,80,ff}, to every reader (zng, vng, zson, zjson, json, csv, tsv, zeek, line) and to auto-detection; (i') ZNG frame headers: every frame code byte x 18 boundary values of the length field (0 .. 2^64-1) alone, followed by zeros, and (compressed frame codes; all codes in thorough) followed by a compression header with format {0,1,ff} x the same 18 declared uncompressed sizes; (ii) for each seed (a quarter of the boundary universe's values, all in thorough, and three multi-value sequences, encoded as ZNG compressed and uncompressed, VNG, ZSON, ZJSON, JSON, CSV, Zeek): truncation at every offset, every single-bit flip, every single-byte substitution from the alphabet (thorough: every pair of substitutions in the first 12 bytes), to the format's reader and to auto-detection, with threads 1 + validate and threads 2; (iii) query text: every token deletion, duplication, adjacent swap and every truncation of compiler/parser/valid.zed lines and ztest programs through compiler.Parse + semantic analysis. Oracle: no panic (a panic in a reader goroutine kills the child process and is attributed to the input by a trace re-run), the read loop ends within 30 s, at most 100000 values and 64 MiB allocated per input (inputs are at most 400 bytes and readmax is 64 KiB), and with validation on every delivered value passes Value.Validate. distinct = jobs")
+	run.Set("rule", "(i) every byte string of length <= 2 and every string of length 3 (and a third of those of length 4; all in thorough) over the boundary alphabet {00,01,0f,10,1f,20,40,7f,80,ff}, to every reader (zng, vng, zson, zjson, json, csv, tsv, zeek, line) and to auto-detection; (i') ZNG frame headers: every frame code byte x 18 boundary values of the length field (0 .. 2^64-1) alone, followed by zeros, and (compressed frame codes; all codes in thorough) followed by a compression header with format {0,1,ff} x the same 18 declared uncompressed sizes; (ii) for each seed (a quarter of the boundary universe's values, all in thorough, and three multi-value sequences, encoded as ZNG compressed and uncompressed, VNG, ZSON, ZJSON, JSON, CSV, Zeek): truncation at every offset, every single-bit flip, every single-byte substitution from the alphabet (thorough: every pair of substitutions in the first 12 bytes), to the format's reader and to auto-detection, with threads 1 + validate and threads 2; (iii) query text: every token deletion, duplication, adjacent swap and every truncation of compiler/parser/valid.zed lines and ztest programs through compiler.Parse + semantic analysis. Oracle: no panic (a panic in a reader goroutine kills the child process and is attributed to the input by a trace re-run), the read loop ends within 30 s, at most 100000 values and 64 MiB allocated per input (inputs are at most 400 bytes and readmax is 64 KiB), and with validation on every delivered value passes Value.Validate and the harness's own structural walk (gen.Consistent: record items = fields, map pairs, union tags and enum selectors in range, also under error and named types). distinct = jobs")
 	run.Assume("coverage-guided mutation is a sampling technique and is not used; neighbourhoods are distance 1 (2 in thorough) from valid encodings")
 	run.Assume("goroutine leaks are not measured here")
 }
